@@ -51,7 +51,7 @@ def gen_spec(rng, cls=None, force_nan=None):
             "at": int(rng.integers(1, 7)),
             "who": who,
             "pos": [b, i],
-            "val": ["nan", "inf", "-inf"][int(rng.integers(3))],
+            "val": ["nan", "inf", "-inf", "big", "-big"][int(rng.integers(5))],
             "sanitise": bool(rng.random() < 0.25),
         }
     else:
